@@ -1,12 +1,16 @@
 package bad
 
-import "verifsk/ext"
+import (
+	"verifsk/ext"
+	"verifsk/lib/v2"
+)
 
 type Src struct {
 	ID   int
 	Name string
 	Pet  ext.Pet
 	Err  error
+	K    int
 }
 
 type Dst struct {
@@ -15,6 +19,7 @@ type Dst struct {
 	Pet   ext.Pet
 	Err   error
 	Extra error
+	K     lib.Kind
 }
 
 var NotFunc = 1
